@@ -1,14 +1,34 @@
 """C12 - snapshots are isolated from later changes; changes cancel, never block.
 
 Spec: Host.tla (snapshot = read lock on the one storage, queries read the live inputs and check the pending-write
-flag at every entry, apply_change = synthetic write + one set per file, each: flag, write lock, store, unlock).
-MC:    exhaustive, no state constraint, safety (Isolation, NoTornRead, Frozen, ...) and liveness (Prompt) under
-       fairness; two deliberately broken configurations must be refuted by TLC (vacuity), -coverage must show every
-       action firing.
+flag at every entry, apply_change = synthetic write + the writes the Change carries in queue order, each: flag, write
+lock, store, unlock).  A Change is a sequence of writes as the server queues them: optional roots / package-graph
+writes (no file text), then per touched file its final text, up to MaxDup files also with an INTERMEDIATE text queued
+somewhere before the final one (two edits taken at once), in any interleaving.  Abstract effect = last content
+queued per file (ApplyEffect); no completed version, no new snapshot and no answer ever shows an intermediate text
+(NoIntermediate).
+MC:    exhaustive, no state constraint, safety (Isolation, NoTornRead, Frozen, NoIntermediate, ...) and liveness
+       (Prompt) under fairness, action properties SnapshotSeesCommitted and ApplyEffect; three deliberately broken
+       configurations must be refuted by TLC (vacuity: snapshot during apply_change, no flag check, first queued content
+       wins), -coverage must show every action firing.  The configurations run in parallel.
 TRACE: harness/src/bin/hostrace.rs races 1 writer against n <= 4 readers on the real ide::AnalysisHost under seeded
        scheduling, records the events with one global sequence number, computes reference answers for every version
-       by a fresh single-threaded analysis; Trace_Host.tla accepts a run iff it is a behaviour of Host, every ok-hash
-       is the reference of the version the model assigns to the snapshot, and every apply_change met the deadline."""
+       (= the LAST content queued per file) by a fresh single-threaded analysis; Trace_Host.tla accepts a run iff it is
+       a behaviour of Host, every ok-hash is the reference of the version the model assigns to the snapshot, and every
+       apply_change met the deadline.
+       - The menu of every run holds every public query method of ide::Analysis (19 kinds: completions without / with
+         '.' / '@' trigger, syntax_highlight with None and five range shapes incl. ranges ending past the end of the
+         file and starting at its very end, prepare_rename, rename, ...).  The check reads the `pub fn`s of
+         `impl Analysis` from the tree under test and fails (exit 2) if one of them is not in the menu.
+       - Pending write, deterministically: in 3 of 4 runs reader 1 (and any reader with probability 1/8 per snapshot)
+         keeps its snapshot until the writer is inside apply_change, probes until a query comes back Cancelled (from
+         then on the flag is known to be up: it cannot be lowered while the snapshot lives) and then issues the WHOLE
+         menu; Host then admits only Cancelled for these (an ok answer or an escaped panic payload is a violation).
+         The check requires >= runs/10 such calls per query kind (exit 2 otherwise).
+       - Changes as the server builds them: every third touched file is queued twice (intermediate text, then final
+         text; any interleaving with the other files), every fifth change re-sends roots and package graph; the
+         ApplyBegin line carries the writes in queue order and Trace_Host requires the last content queued for a file
+         to be its text in the new version (WellFormedTodo)."""
 import json, os, re
 import vlib
 
